@@ -95,16 +95,34 @@ impl Task for TR {
   }
 }
 
-pub const NFAM: u8 = 11;
+/// A key type whose hand-written Hash is coarser than its Eq (only the first field is hashed): unequal values of one type
+/// with equal hashes. CT(i, o) is a task reading the resource CR(i, o).
+#[derive(Clone, Copy, PartialEq, Eq, Debug)]
+pub struct CT(pub u8, pub u8);
+impl std::hash::Hash for CT { fn hash<H: std::hash::Hasher>(&self, h: &mut H) { self.0.hash(h) } }
+#[derive(Clone, Copy, PartialEq, Eq, Debug)]
+pub struct CR(pub u8, pub u8);
+impl std::hash::Hash for CR { fn hash<H: std::hash::Hasher>(&self, h: &mut H) { self.0.hash(h) } }
+impl MapKey for CR { type Value = u8; }
+impl Task for CT {
+  type Output = (u8, u8, Option<u8>);
+  fn execute<C: Context>(&self, ctx: &mut C) -> Self::Output {
+    let v = ctx.read(&CR(self.0, self.1), MapEqualsChecker).ok().and_then(|r| r.copied());
+    (6, self.0 + 3 * self.1, v)
+  }
+}
+
+pub const NFAM: u8 = 12;
 
 /// 0 = A, 1 = B, 2 = Box<A>, 3 = Rc<A>, 4 = Arc<A>, 5 = Box<B>, 6 = Z1, 7 = Z2, 8 = Box<Z1> (zero-sized: id is always 0),
-/// 9 = Both (reads RA(id), RB(id), RZ1, RZ2 back to back), 10 = TR (a type that is task and resource at once)
+/// 9 = Both (reads RA(id), RB(id), RZ1, RZ2 back to back), 10 = TR (a type that is task and resource at once),
+/// 11 = CT (hash coarser than equality; id = low + 3 * high field, 0..6)
 #[derive(Clone, Copy, Debug, Serialize, Deserialize, PartialEq, Eq, Hash, PartialOrd, Ord)]
 pub struct Spec { pub fam: u8, pub id: u8 }
 
 impl Spec {
-  fn base(&self) -> u8 { match self.fam % NFAM { 1 | 5 => 1, 6 | 8 => 2, 7 => 3, 9 => 4, 10 => 5, _ => 0 } }
-  fn canon(&self) -> Spec { let fam = self.fam % NFAM; Spec { fam, id: if (6..=8).contains(&fam) { 0 } else { self.id } } }
+  fn base(&self) -> u8 { match self.fam % NFAM { 1 | 5 => 1, 6 | 8 => 2, 7 => 3, 9 => 4, 10 => 5, 11 => 6, _ => 0 } }
+  fn canon(&self) -> Spec { let fam = self.fam % NFAM; Spec { fam, id: if (6..=8).contains(&fam) { 0 } else if fam == 11 { self.id % 6 } else { self.id % 3 } } }
 }
 
 #[derive(Clone, PartialEq, Eq, Hash, Debug)]
@@ -123,7 +141,8 @@ impl Task for Root {
       7 => ctx.require(&Z2, EqualsChecker),
       8 => ctx.require(&Box::new(Z1), EqualsChecker),
       9 => ctx.require(&Both(s.id), EqualsChecker),
-      _ => ctx.require(&TR(s.id), EqualsChecker),
+      10 => ctx.require(&TR(s.id), EqualsChecker),
+      _ => ctx.require(&CT(s.id % 3, s.id / 3 % 2), EqualsChecker),
     }).collect()
   }
 }
@@ -143,6 +162,7 @@ fn spec_of(k: &dyn KeyObj) -> Option<Spec> {
   if a.downcast_ref::<Box<Z1>>().is_some() { return Some(Spec { fam: 8, id: 0 }); }
   if let Some(x) = a.downcast_ref::<Both>() { return Some(Spec { fam: 9, id: x.0 }); }
   if let Some(x) = a.downcast_ref::<TR>() { return Some(Spec { fam: 10, id: x.0 }); }
+  if let Some(x) = a.downcast_ref::<CT>() { return Some(Spec { fam: 11, id: x.0 + 3 * x.1 }); }
   None
 }
 
@@ -152,14 +172,14 @@ impl Tracker for ExecTracker {
 }
 
 #[derive(Clone, Debug, Serialize, Deserialize, PartialEq, Eq, Hash)]
-pub enum IStep { Session, BottomUp, /// Bottom-up build that is told about the same-bytes twin of every changed resource (another type) instead of the resource itself.
+pub enum IStep { ChangeC { id: u8, val: Option<u8> }, Session, BottomUp, /// Bottom-up build that is told about the same-bytes twin of every changed resource (another type) instead of the resource itself.
   BottomUpTwin, ChangeT { id: u8, val: Option<u8> }, ChangeA { id: u8, val: Option<u8> }, ChangeB { id: u8, val: Option<u8> }, ChangeZ { which: u8, val: Option<u8> } }
 
 #[derive(Clone, Debug, Serialize, Deserialize, PartialEq, Eq, Hash)]
 pub struct ICase { pub specs: Vec<Spec>, pub steps: Vec<IStep> }
 
 fn key_obj(s: &Spec) -> Box<dyn KeyObj> {
-  match s.fam % NFAM { 0 => Box::new(A(s.id)), 1 => Box::new(B(s.id)), 2 => Box::new(Box::new(A(s.id))), 3 => Box::new(Rc::new(A(s.id))), 4 => Box::new(Arc::new(A(s.id))), 5 => Box::new(Box::new(B(s.id))), 6 => Box::new(Z1), 7 => Box::new(Z2), 8 => Box::new(Box::new(Z1)), 9 => Box::new(Both(s.id)), _ => Box::new(TR(s.id)) }
+  match s.fam % NFAM { 0 => Box::new(A(s.id)), 1 => Box::new(B(s.id)), 2 => Box::new(Box::new(A(s.id))), 3 => Box::new(Rc::new(A(s.id))), 4 => Box::new(Arc::new(A(s.id))), 5 => Box::new(Box::new(B(s.id))), 6 => Box::new(Z1), 7 => Box::new(Z2), 8 => Box::new(Box::new(Z1)), 9 => Box::new(Both(s.id)), 10 => Box::new(TR(s.id)), _ => Box::new(CT(s.id % 3, s.id / 3 % 2)) }
 }
 fn hash_of(k: &dyn KeyObj) -> u64 { let mut h = DefaultHasher::new(); k.hash(&mut h); h.finish() }
 
@@ -192,6 +212,7 @@ pub fn check(case: &ICase, stats: &mut Stats) -> CheckResult {
   let mut rb: BTreeMap<u8, u8> = BTreeMap::new();
   let mut rz: [Option<u8>; 2] = [None, None];
   let mut rt: BTreeMap<u8, u8> = BTreeMap::new();
+  let mut rc: BTreeMap<u8, u8> = BTreeMap::new();
   // resources changed since the last build: (type 0 RA / 1 RB / 2 RZ1 / 3 RZ2, id)
   let mut changed: Vec<(u8, u8)> = vec![];
   // what each distinct key saw at its last execution
@@ -211,6 +232,12 @@ pub fn check(case: &ICase, stats: &mut Stats) -> CheckResult {
         // The other resource type must not see it.
         let other = pie.resource_state_mut::<RB>().get_global_map_mut().get(&RB(*id)).copied();
         if other != rb.get(id).copied() { return Err(Failure::new(format!("step {}: changing resource RA({}) changed what RB({}) holds: {:?}", i, id, id, other))); }
+      }
+      IStep::ChangeC { id, val } => {
+        let id = *id % 6;
+        if !changed.contains(&(5, id)) { changed.push((5, id)); }
+        let m = pie.resource_state_mut::<CR>().get_global_map_mut();
+        match val { Some(v) => { m.insert(CR(id % 3, id / 3), *v); rc.insert(id, *v); } None => { m.remove(&CR(id % 3, id / 3)); rc.remove(&id); } }
       }
       IStep::ChangeT { id, val } => {
         if !changed.contains(&(4, *id)) { changed.push((4, *id)); }
@@ -242,19 +269,19 @@ pub fn check(case: &ICase, stats: &mut Stats) -> CheckResult {
             stats.class("bottom_up_step");
             // What is reported: the changed resources themselves, or their twins of another type with the same bytes.
             let twin = matches!(st, IStep::BottomUpTwin);
-            let reported: Vec<(u8, u8)> = changed.iter().map(|(ty, id)| if twin { (match ty { 0 => 1, 1 => 0, 2 => 3, 3 => 2, _ => 0 }, *id) } else { (*ty, *id) }).collect();
+            let reported: Vec<(u8, u8)> = changed.iter().map(|(ty, id)| if twin { (match ty { 0 => 1, 1 => 0, 2 => 3, 3 => 2, 5 => 5, _ => 0 }, if *ty == 5 { (*id + 3) % 6 } else { *id }) } else { (*ty, *id) }).collect();
             if twin && !reported.is_empty() { stats.class("bottom_up_step_reporting_same_bytes_twins"); }
             {
               let mut bu = session.create_bottom_up_build();
               for (ty, id) in &reported {
-                match ty { 0 => bu.schedule_tasks_affected_by(&RA(*id)), 1 => bu.schedule_tasks_affected_by(&RB(*id)), 2 => bu.schedule_tasks_affected_by(&RZ1), 3 => bu.schedule_tasks_affected_by(&RZ2), _ => bu.schedule_tasks_affected_by(&TR(*id)) }
+                match ty { 0 => bu.schedule_tasks_affected_by(&RA(*id)), 1 => bu.schedule_tasks_affected_by(&RB(*id)), 2 => bu.schedule_tasks_affected_by(&RZ1), 3 => bu.schedule_tasks_affected_by(&RZ2), 5 => bu.schedule_tasks_affected_by(&CR(*id % 3, *id / 3 % 2)), _ => bu.schedule_tasks_affected_by(&TR(*id)) }
               }
               bu.update_affected_tasks();
             }
             // The bottom-up build itself executes exactly the known tasks that read a *reported* resource whose value
             // differs from what they saw - never a task whose resource merely has the same bytes as a reported one.
-            let reads = |s: &Spec| -> Vec<(u8, u8)> { match s.base() { 0 => vec![(0, s.id)], 1 => vec![(1, s.id)], 2 => vec![(2, 0)], 3 => vec![(3, 0)], 5 => vec![(4, s.id)], _ => vec![(0, s.id), (1, s.id), (2, 0), (3, 0)] } };
-            let now = |r: &(u8, u8)| -> Option<u8> { match r.0 { 0 => ra.get(&r.1).copied(), 1 => rb.get(&r.1).copied(), 2 => rz[0], 3 => rz[1], _ => rt.get(&r.1).copied() } };
+            let reads = |s: &Spec| -> Vec<(u8, u8)> { match s.base() { 0 => vec![(0, s.id)], 1 => vec![(1, s.id)], 2 => vec![(2, 0)], 3 => vec![(3, 0)], 5 => vec![(4, s.id)], 6 => vec![(5, s.id)], _ => vec![(0, s.id), (1, s.id), (2, 0), (3, 0)] } };
+            let now = |r: &(u8, u8)| -> Option<u8> { match r.0 { 0 => ra.get(&r.1).copied(), 1 => rb.get(&r.1).copied(), 2 => rz[0], 3 => rz[1], 5 => rc.get(&r.1).copied(), _ => rt.get(&r.1).copied() } };
             let mut want_bu: Vec<Spec> = distinct.iter().cloned().filter(|s| seen.contains_key(s) && reads(s).iter().any(|r| reported.contains(r) && seen_res.get(&(*s, *r)).copied().flatten() != now(r))).collect();
             want_bu.sort();
             let mut got_bu = EXECS.with(|e| e.borrow().clone());
@@ -272,7 +299,7 @@ pub fn check(case: &ICase, stats: &mut Stats) -> CheckResult {
         let mut execs = EXECS.with(|e| e.borrow().clone());
         execs.sort();
         // Expected: each distinct key executes iff never executed or its own resource changed since.
-        let cur = |s: &Spec| -> Option<u8> { match s.base() { 0 => ra.get(&s.id).copied(), 1 => rb.get(&s.id).copied(), 2 => rz[0], 3 => rz[1], 5 => rt.get(&s.id).copied(), _ => Some(both_digest(ra.get(&s.id).copied(), rb.get(&s.id).copied(), rz[0], rz[1])) } };
+        let cur = |s: &Spec| -> Option<u8> { match s.base() { 0 => ra.get(&s.id).copied(), 1 => rb.get(&s.id).copied(), 2 => rz[0], 3 => rz[1], 5 => rt.get(&s.id).copied(), 6 => rc.get(&s.id).copied(), _ => Some(both_digest(ra.get(&s.id).copied(), rb.get(&s.id).copied(), rz[0], rz[1])) } };
         let mut want_exec: Vec<Spec> = vec![];
         // The root validates its requires in order and stops at the first inconsistent one; keys after that are
         // re-required by the re-executing root. Either way every distinct key is made consistent exactly once.
@@ -287,8 +314,8 @@ pub fn check(case: &ICase, stats: &mut Stats) -> CheckResult {
             let need = match seen.get(s) { None => true, Some(v) => *v != cur(s) };
             if need {
               want_exec.push(*s); seen.insert(*s, cur(s));
-              let rs: Vec<(u8, u8)> = match s.base() { 0 => vec![(0, s.id)], 1 => vec![(1, s.id)], 2 => vec![(2, 0)], 3 => vec![(3, 0)], 5 => vec![(4, s.id)], _ => vec![(0, s.id), (1, s.id), (2, 0), (3, 0)] };
-              for r in rs { let v = match r.0 { 0 => ra.get(&r.1).copied(), 1 => rb.get(&r.1).copied(), 2 => rz[0], 3 => rz[1], _ => rt.get(&r.1).copied() }; seen_res.insert((*s, r), v); }
+              let rs: Vec<(u8, u8)> = match s.base() { 0 => vec![(0, s.id)], 1 => vec![(1, s.id)], 2 => vec![(2, 0)], 3 => vec![(3, 0)], 5 => vec![(4, s.id)], 6 => vec![(5, s.id)], _ => vec![(0, s.id), (1, s.id), (2, 0), (3, 0)] };
+              for r in rs { let v = match r.0 { 0 => ra.get(&r.1).copied(), 1 => rb.get(&r.1).copied(), 2 => rz[0], 3 => rz[1], 5 => rc.get(&r.1).copied(), _ => rt.get(&r.1).copied() }; seen_res.insert((*s, r), v); }
             }
           }
         }
@@ -308,7 +335,7 @@ pub fn check(case: &ICase, stats: &mut Stats) -> CheckResult {
   Ok(())
 }
 
-fn spec() -> impl Strategy<Value=Spec> { (0u8..NFAM, 0u8..3).prop_map(|(fam, id)| Spec { fam, id }.canon()) }
+fn spec() -> impl Strategy<Value=Spec> { (0u8..NFAM, 0u8..6).prop_map(|(fam, id)| Spec { fam, id }.canon()) }
 fn istep() -> impl Strategy<Value=IStep> {
   prop_oneof![
     3 => Just(IStep::Session),
@@ -318,6 +345,7 @@ fn istep() -> impl Strategy<Value=IStep> {
     2 => (0u8..3, proptest::option::of(0u8..3)).prop_map(|(id, val)| IStep::ChangeB { id, val }),
     2 => (0u8..2, proptest::option::of(0u8..3)).prop_map(|(which, val)| IStep::ChangeZ { which, val }),
     2 => (0u8..3, proptest::option::of(0u8..3)).prop_map(|(id, val)| IStep::ChangeT { id, val }),
+    2 => (0u8..6, proptest::option::of(0u8..3)).prop_map(|(id, val)| IStep::ChangeC { id, val }),
   ]
 }
 pub fn strategy() -> impl Strategy<Value=ICase> {
@@ -330,7 +358,7 @@ pub fn replay(path: &Path) -> Result<CheckResult, String> {
 }
 
 pub fn run(tier: Tier, seed: u64) -> i32 {
-  let rule = "proptest-generated key lists drawn from nine task types with identical representation, hash and Debug text (newtypes A(u8), B(u8), Box<A>, Rc<A>, Arc<A>, Box<B>, and the zero-sized unit structs Z1, Z2, Box<Z1>, whose boxes even share an address) and four resource types RA(u8)/RB(u8)/RZ1/RZ2 with colliding ids, plus a task that reads RA(i), RB(i), RZ1, RZ2 back to back and a key type TR(i) that is a task and the resource it reads at once, x histories of top-down sessions, bottom-up builds (all changed resources reported) and changes to RA(i)/RB(i)/RZ1/RZ2; oracle: dyn KeyObj equality holds iff same concrete type and equal value, equal keys hash equally (all pairs of separately constructed keys); inside a Pie instance a root task requires the listed keys: every distinct (type, value) executes exactly once when new or when its own resource changed, never because a same-bytes key of another type changed, and every key gets its own output; changing RA(i) never changes RB(i); non-trivial = case with two keys of equal bytes and different types; distinct by case hash";
+  let rule = "proptest-generated key lists drawn from nine task types with identical representation, hash and Debug text (newtypes A(u8), B(u8), Box<A>, Rc<A>, Arc<A>, Box<B>, and the zero-sized unit structs Z1, Z2, Box<Z1>, whose boxes even share an address) and four resource types RA(u8)/RB(u8)/RZ1/RZ2 with colliding ids, plus a task that reads RA(i), RB(i), RZ1, RZ2 back to back a key type TR(i) that is a task and the resource it reads at once, and task/resource types CT/CR whose hand-written Hash is coarser than their Eq (unequal values of one type with equal hashes), x histories of top-down sessions, bottom-up builds (all changed resources reported) and changes to RA(i)/RB(i)/RZ1/RZ2; oracle: dyn KeyObj equality holds iff same concrete type and equal value, equal keys hash equally (all pairs of separately constructed keys); inside a Pie instance a root task requires the listed keys: every distinct (type, value) executes exactly once when new or when its own resource changed, never because a same-bytes key of another type changed, and every key gets its own output; changing RA(i) never changes RB(i); non-trivial = case with two keys of equal bytes and different types; distinct by case hash";
   let mut report = Report::new("C15", tier, seed, "exploration", rule);
   let known = Known::load("C15");
   super::prologue(&mut report, &known);
